@@ -262,6 +262,12 @@ func runTamper(t *rapid.T, test string, in inst, what string) {
 	if err != nil {
 		t.Fatalf("harness: context: %v", err)
 	}
+	if crashRisk(in, m) {
+		vlib.Excluded(knownNilComponent)
+		vlib.Case(test, vlib.Desc(in.Proto(), cn, in.Shape(), in.Group(), "tamper:"+m.op, "not-run:"+knownNilComponent), false,
+			"op="+m.op, "verdict=not-run:process-crash-risk:"+knownNilComponent)
+		return
+	}
 	var verr error
 	panicMsg, stack := catchPanic(func() { verr = in.Verify(cn, ctxV, seed+3, "", false, m.bytes, false) })
 	if se, ok := verr.(*stepErr); ok && panicMsg == "" {
